@@ -93,6 +93,7 @@ def run(an: Analysis, rep):
     from . import line_fold
     rep.run(line_fold.fold_rule, an, rep)
     rep.run(line_fold.raw_tables_rule, an, rep)
+    rep.run(line_fold.raw_lnotab_rule, an, rep)
     from .common import SharedRules, purity, truthiness_rule
     from . import c01
     rep.run(purity, an, rep, "R10.P", ["from_code", "to_code"])
